@@ -42,6 +42,7 @@ type Solver struct {
 	Dur       time.Duration
 	Binary    string
 	TimeoutMs int
+	Dead      bool // the solver process is gone; every answer is Unknown
 }
 
 func NewSolver(st *Store, binary string, transcript io.Writer) (*Solver, error) {
@@ -136,10 +137,14 @@ func (s *Solver) PopTo(depth int) {
 
 func (s *Solver) readLine() string {
 	for {
+		if s.Dead {
+			return "#dead"
+		}
 		line, err := s.out.ReadString('\n')
 		if err != nil {
-			s.Errors = append(s.Errors, "solver pipe: "+err.Error())
-			return "unknown"
+			s.Errors = append(s.Errors, "solver process died: "+err.Error())
+			s.Dead = true
+			return "#dead"
 		}
 		line = strings.TrimSpace(line)
 		if line == "" {
@@ -172,6 +177,7 @@ func (s *Solver) verdict(line string) Verdict {
 func (s *Solver) Check(extra *Term, vars []*Term) (Verdict, map[string]uint64) {
 	t0 := time.Now()
 	s.Queries++
+	s.flushDecls()
 	var str string
 	if extra != nil {
 		str = s.termStr(extra)
@@ -184,6 +190,11 @@ func (s *Solver) Check(extra *Term, vars []*Term) (Verdict, map[string]uint64) {
 	for {
 		line := s.readLine()
 		if line == "#sync" || line == "\"#sync\"" {
+			break
+		}
+		if line == "#dead" {
+			v = Unknown
+			s.NUnknown++
 			break
 		}
 		if !got {
@@ -222,7 +233,7 @@ func (s *Solver) getValues(vars []*Term) map[string]uint64 {
 	var text strings.Builder
 	for {
 		line := s.readLine()
-		if line == "#sync" || line == "\"#sync\"" {
+		if line == "#sync" || line == "\"#sync\"" || line == "#dead" {
 			break
 		}
 		text.WriteString(line)
